@@ -516,7 +516,7 @@ func c17Undamaged(lib *ast.KnowledgeLibrary, r *rand.Rand) (msg string) {
 func init() {
 	register(&Check{
 		ID: "C17", Level: "exploration",
-		Rule: "valid generated documents (all spellings) and mutants of them: delete / duplicate / swap / replace / insert at token level and at character level, 1-3 edits, replacements from a dictionary of keywords, operators, brackets, identifiers, boundary and malformed literals, stray and non-ASCII characters; plus a library of targeted documents (reserved words as identifiers, unbalanced brackets, empty when/then, missing ';', stray '#'/'@', unterminated strings and comments, doubled quotes, out-of-range literals, salience boundaries, duplicate names); each loaded into an empty knowledge base or one preloaded with two good rules; oracle = independent recogniser (lexer transcribed from the token rules with ANTLR semantics + Earley recogniser over the parser rules as data + literal / escape / name validity from the docs); on acceptance every declared rule must be present with its description and salience; syntax rejections must be a GruleErrorReporter with >=1 error; after every document the preloaded rules must instantiate, store, load and behave as before (per-run monitors); non-trivial = distinct documents judged; evidence counts accepted and each rejection channel (lex, syntax, intrange, floatrange, salrange, escape, dupname); 90 targeted documents with every class of string escape, well-formed and ill-formed, in both quote styles and three positions",
+		Rule: "valid generated documents (all spellings) and mutants of them: delete / duplicate / swap / replace / insert at token level and at character level, 1-3 edits, replacements from a dictionary of keywords, operators, brackets, identifiers, boundary and malformed literals, stray and non-ASCII characters; plus a library of targeted documents (reserved words as identifiers, unbalanced brackets, empty when/then, missing ';', stray '#'/'@', unterminated strings and comments, doubled quotes, out-of-range literals, salience boundaries, duplicate names); each loaded into an empty knowledge base or one preloaded with two good rules; oracle = independent recogniser (lexer transcribed from the token rules with ANTLR semantics + Earley recogniser over the parser rules as data + literal / escape / name validity from the docs); on acceptance every declared rule must be present with its description and salience; syntax rejections must be a GruleErrorReporter with >=1 error; after every document the preloaded rules must instantiate, store, load and behave as before (per-run monitors); non-trivial = distinct documents judged; evidence counts accepted and each rejection channel (lex, syntax, intrange, floatrange, salrange, escape, dupname); 90 targeted documents with every class of string escape, well-formed and ill-formed, in both quote styles and three positions; rule-less texts, or-chains / sums of 40-130 terms and 20-48 nesting levels (each followed by a rule that must survive), rejected texts whose only new node is a variable (always into the preloaded knowledge base); after a rejection into an empty knowledge base the pre-text is built into it and must work",
 		Assume: []string{"the recogniser (harness/recog.go) is the specification of 'grammatical'; it was validated against the unchanged builder on 520 000 mutants at design time and agrees on every document of every run", "documents up to 4 KiB"},
 		Cases:  tierN(6000, 300000),
 		Run:    runC17Case,
